@@ -15,6 +15,7 @@ import (
 
 	"github.com/open2b/scriggo/ast"
 	"github.com/open2b/scriggo/internal/compiler/types"
+	"github.com/open2b/scriggo/internal/runtime"
 )
 
 var untypedBoolTypeInfo = &typeInfo{Type: boolType, Properties: propertyUntyped}
@@ -2030,6 +2031,12 @@ func (tc *typechecker) checkCompositeLiteral(node *ast.CompositeLiteral, typ ref
 			}
 			if keyTi.IsConstant() {
 				key := tc.typedValue(keyTi, keyType)
+				if _, ok := keyTi.Type.(runtime.ScriggoType); ok && keyType.Kind() == reflect.Interface {
+					// The value of a constant with a type defined in the
+					// compiled code is represented with its Go type: keep
+					// it distinct from the constants of the other types.
+					key = [2]any{keyTi.Type, key}
+				}
 				if _, ok := hasKey[key]; ok {
 					panic(tc.errorf(node, "duplicate key %s in map literal", kv.Key))
 				}
